@@ -877,7 +877,7 @@ Proof.
   intros Hu HF. unfold unfold_value, doc_len in *. rewrite Hu. rewrite <- expand_deep_is_flatten in *.
   pose proof (plain_expand tr) as Hp.
   rewrite (uf_fuel_enough _ t old F Hp HF).
-  rewrite (uf_fuel_enough _ t old (S (S (length (flatten (expand_tree tr)))) + ftsize t) Hp) by lia.
+  rewrite (uf_fuel_enough _ t old (S (S (2 * length (flatten (expand_tree tr)))) + ftsize t) Hp) by lia.
   pose proof (uf_complete_shape (expand_tree tr) (length (flatten (expand_tree tr)) + ftsize t) t old Hp) as Hs.
   destruct (uf (length (flatten (expand_tree tr)) + ftsize t) t old (flatten (expand_tree tr))) as [v r|x];
     cbn [ur_shape] in Hs.
@@ -1714,18 +1714,18 @@ Proof.
   assert (Hq' : flat_map expand q <> []).
   { destruct q as [|e q]; [contradiction|]. cbn [flat_map]. pose proof (expand_length_pos e).
     destruct (expand e); [cbn in H0; lia|discriminate]. }
-  destruct (pre_plain _ (plain_expand tr) (S (S (length (flat_map expand p))) + ftsize t)%nat t old _ _ E' Hq') as [x Hx].
+  destruct (pre_plain _ (plain_expand tr) (S (S (2 * length (flat_map expand p))) + ftsize t)%nat t old _ _ E' Hq') as [x Hx].
   rewrite Hx in H. destruct x; discriminate H.
 Qed.
 Print Assumptions C14_prefix_not_done.
 
-(* the fuel of unfold_value is adequate on complete documents only: on a prefix that is
-   nested deeper than the fuel the model reports an error where the Go code waits for more
-   (both are allowed by C14_prefix_not_done) *)
-Example C14_prefix_fuel_artefact :
+(* the fuel of unfold_value (two units per event) is also adequate on deeply nested prefixes:
+   an interface{} target uses two units of fuel per open container *)
+Example C14_prefix_deep_waits :
   unfold_value TIface GNil (repeat (EArrStart (-1) BAny) 3) = UMore /\
-  unfold_value TIface GNil (repeat (EArrStart (-1) BAny) 4) = UFail 3.
-Proof. vm_compute. split; reflexivity. Qed.
+  unfold_value TIface GNil (repeat (EArrStart (-1) BAny) 4) = UMore /\
+  unfold_value TIface GNil (repeat (EArrStart (-1) BAny) 40) = UMore.
+Proof. vm_compute. repeat split; reflexivity. Qed.
 
 (* ====================================================================== *)
 (* Part F: C11 (direct route) beyond flat structs: structs nested in        *)
